@@ -447,6 +447,9 @@ def c08(ctx):
             ops = gen_ops(ctx, hg, ctx.rng.choice([1, 3, 6, 12]), 0)
             for cyc in range(ctx.rng.choice([1, 1, 2, 3])):
                 ops.append(('clear', 0))
+                # state-level tie: the complete serialised state of the cleared region is the model's cleared state
+                # (the round trip itself is C16's business; here it only exposes the state)
+                if hg.caps['serde'] and not uses_ieee(e) and ctx.rng.random() < 0.5: ops.append(('serde', 0))
                 if cyc > 0: ops.append(('clear', 1))
                 for _ in range(ctx.rng.choice([1, 2, 4, 8])):
                     p = hg.push(0); ops.append(p); ops.append(('push', 1, p[2], p[3], 'twin'))
@@ -463,7 +466,11 @@ def c08(ctx):
                 p = hg.push(0); ops.append(p); ops.append(('push', 1, p[2], p[3], 'twin'))
             ops += [('probe', 0), ('probe', 1)]
             cases.append((name, ops)); note_case(res, name, ops)
-    run_regions(ctx, res, cases, lambda e, ops, obs, mo=None: ref_oracle(e, ops, obs, [paired_clause(0, 1)], mo), 'full')
+    withstate = [c for c in cases if any(o[0] == 'serde' for o in c[1])]
+    without = [c for c in cases if not any(o[0] == 'serde' for o in c[1])]
+    run_regions(ctx, res, without, lambda e, ops, obs, mo=None: ref_oracle(e, ops, obs, [paired_clause(0, 1)], mo), 'full')
+    run_regions(ctx, res, withstate, lambda e, ops, obs, mo=None: ref_oracle(e, ops, obs, [paired_clause(0, 1)], mo), 'state')
+    res.extra['state_tie_after_clear'] = len(withstate)
     # FlatStack: after clear() the stack is a fresh one -- also when it came from with_capacity / merge_capacity (whose
     # region carries a dictionary for the coded entries) and nothing was copied yet
     fscases = gen_fs_cases(ctx, list(FS_EXPR), 12 if not ctx.thorough else 120, 12, p_cap=0.25)
